@@ -124,7 +124,7 @@ func (ex *Exec) callFunc(fr *Frame, st *State, fn *ssa.Function, bindings []Valu
 		ex.callBindings, ex.callFn = nil, nil
 	case externModel(fn) != nil:
 		res = externModel(fn)(ex, st, fn, args)
-	case ex.eng.isRepoFunc(fn) && fn.Blocks != nil && fr.depth < maxInlineDepth && !ex.inStack(fr, fn) && ex.budget > 0:
+	case ex.eng.isRepoFunc(fn) && fn.Blocks != nil && fr.depth < maxInlineDepth && !ex.inStack(fr, fn) && ex.budget > 0 && !(ex.topC != nil && (ex.topC.Abstract[callee] || ex.topC.Abstract["*"])):
 		ex.inlined[callee] = true
 		nf := &Frame{fn: fn, regs: map[ssa.Value]Value{}, params: map[*ssa.Parameter]Value{}, freeVars: map[*ssa.FreeVar]Value{}, callOrd: map[string]int{}, depth: fr.depth + 1, parent: fr, entry: st}
 		for i, p := range fn.Params {
